@@ -1261,6 +1261,19 @@ class AObj:
     attribute access in interpreted code reads the Python attribute."""
 
 
+def bind_call(fv, args, kwargs, skip_self=False):
+    """{parameter name: argument} of a call of the repository function ``fv`` (a :class:`FuncVal`), however the caller
+    spelled it (positionally or by keyword) — stubs written against parameter *names* stay valid when call sites change."""
+    a_ = fv.node.args
+    names = [x.arg for x in a_.posonlyargs + a_.args]
+    if skip_self and names and names[0] in ('self', 'cls'):
+        names = names[1:]
+    out = dict(kwargs)
+    for n_, v_ in zip(names, args):
+        out.setdefault(n_, v_)
+    return out
+
+
 class DelegatingAObj(AObj):
     """An abstract stand-in for an instance of a repository class: attributes the stand-in does not script itself are
     the *real* methods of that class (``_real_class``, a :class:`ClassVal`), bound to the stand-in — so that a method
